@@ -180,6 +180,27 @@ type scenario struct {
 	// (the writer is then blocked on the pipe, in the middle of an earlier large file).
 	Hold      string `json:"hold,omitempty"`
 	HoldByCmd bool   `json:"hold_by_cmd,omitempty"`
+	// follow-up 2.
+	// Kind "atomic": command cache, the store command publishes only if it ran to its end (tmp, a
+	// pause, mv - all by sh itself); one fault-free retrieve.
+	// Kind "into": a fault-free store, then each retrieve goes into an output directory that
+	// already holds Pre (a stale link, the empty file an earlier failed retrieve left, ...).
+	// Kind "mplex": Files are the outputs of the target (plain files and links); Ops is a history
+	// on the multiplexer over Order (build+store / wipe the output directory / retrieve).
+	Kind  string   `json:"kind,omitempty"`
+	Pre   []*tnode `json:"pre,omitempty"`
+	Order []string `json:"order,omitempty"`
+	Ops   []mop    `json:"ops,omitempty"`
+}
+
+// one operation of a multiplexer history
+type mop struct {
+	Op string `json:"op"` // build | wipe | retrieve
+	// stores made by this operation (the build's Store, or the back-fill after a retrieve)
+	PutFault  string `json:"put_fault,omitempty"`  // http: "" | abort | status
+	CmdRefuse bool   `json:"cmd_refuse,omitempty"` // cmd: the store command fails without publishing
+	// retrieve: the fault of each cache's own retrieve
+	R retr `json:"r"`
 }
 
 func (sc *scenario) vanishNode() *tnode {
@@ -216,6 +237,7 @@ type retrObs struct {
 	Complete   bool   `json:"complete"` // every declared output is back, exactly
 	Incomplete string `json:"incomplete,omitempty"`
 	tarCut     int    // http GetCut: tar bytes that decompress before the error
+	preCoq     []string
 }
 
 type observed struct {
@@ -225,6 +247,24 @@ type observed struct {
 	Members   []string   `json:"members"`
 	R         []*retrObs `json:"retrieves"`
 	Vanished  string     `json:"vanished,omitempty"` // how the removal during the store went
+	Steps     []*mstepObs `json:"steps,omitempty"`   // mplex: after each operation
+}
+
+type entryObs struct {
+	Stored  bool     `json:"stored"`
+	Len     int      `json:"len"`
+	Members []string `json:"members"`
+	Wrote   bool     `json:"wrote"` // this operation stored into the cache
+}
+
+type mstepObs struct {
+	Op         string            `json:"op"`
+	Result     string            `json:"result,omitempty"` // retrieve: hit | miss | hung
+	Entries    []*entryObs       `json:"entries"`          // per cache, in Order
+	Disk       map[string]string `json:"disk"`
+	Incomplete string            `json:"incomplete,omitempty"` // first declared output that is not back exactly
+	tarCut     int
+	diskCoq    []string
 }
 
 var whole = retr{RetrCut: -1}
@@ -250,6 +290,9 @@ type worker struct {
 	blobs  map[string][]byte
 	plan   *scenario
 	rplan  retr
+	puts   int // PUT bodies stored
+	lastLo int // tar offsets of the content of the last regular file (for get fault cut-in-last)
+	lastHi int
 }
 
 func newWorker(root string, id int) *worker {
@@ -284,6 +327,7 @@ func (w *worker) serve(rw http.ResponseWriter, r *http.Request) {
 		}
 		w.mu.Lock()
 		w.blobs[r.URL.Path] = b
+		w.puts++
 		w.mu.Unlock()
 	case http.MethodGet:
 		w.mu.Lock()
@@ -294,11 +338,16 @@ func (w *worker) serve(rw http.ResponseWriter, r *http.Request) {
 			return
 		}
 		cut := min(rt.GetCut, len(b))
+		if rt.GetFault == "cut-in-last" {
+			w.mu.Lock()
+			cut = cutInsideLast(b, w.lastLo, w.lastHi)
+			w.mu.Unlock()
+		}
 		switch rt.GetFault {
 		case "status":
 			rw.WriteHeader(http.StatusForbidden)
 			rw.Write([]byte("no"))
-		case "cut-length": // Content-Length promises everything, the connection dies early
+		case "cut-length", "cut-in-last": // Content-Length promises everything, the connection dies early
 			rw.Header().Set("Content-Length", fmt.Sprint(len(b)))
 			rw.Write(b[:cut])
 			if f, ok := rw.(http.Flusher); ok {
@@ -345,6 +394,11 @@ func (w *worker) commands(sc *scenario, r retr) (string, string) {
 		st = fmt.Sprintf("head -c %d > %s; cat > /dev/null; exit 1", sc.StoreHead, f)
 	case "atomic-head-fail":
 		st = fmt.Sprintf("head -c %d > %s; cat > /dev/null; exit 1", sc.StoreHead, tmp)
+	case "atomic-slow": // as atomic, with time for a kill to land between the copy and the rename
+		st = "cat > " + tmp + " && sleep 0.15 && mv " + tmp + " " + f
+	case "mplex": // atomic; refuses when the harness says so; logs each publication
+		st = "if [ -e " + sq(w.store) + "/refuse ]; then cat > /dev/null; exit 1; fi; cat > " + tmp + " && mv " + tmp + " " + f +
+			" && echo stored >> " + sq(w.store) + "/log"
 	case "atomic-rm-midway": // tmp+mv done by sh itself; removes an output entry after StoreHead bytes
 		v := sc.vanishNode()
 		st = fmt.Sprintf("head -c %d > %s; rm -rf %s; cat >> %s && mv %s %s", sc.StoreHead, tmp,
@@ -363,6 +417,9 @@ func (w *worker) commands(sc *scenario, r retr) (string, string) {
 }
 
 func (w *worker) run(idx int, sc *scenario) *observed {
+	if sc.Kind == "mplex" {
+		return w.runMplex(idx, sc)
+	}
 	key := []byte(fmt.Sprintf("key-%06d", idx))
 	hexKey := hex.EncodeToString(key)
 	ob := &observed{}
@@ -481,8 +538,17 @@ func (w *worker) storeWithVanish(sc *scenario, store func()) string {
 	fd, err := syscall.Open(filepath.Join(w.outDir, sc.Hold), syscall.O_RDONLY|syscall.O_CLOEXEC, 0)
 	must(err)
 	defer syscall.Close(fd)
-	if _, err := fcntl(fd, fSetLease, fWrLck); err != nil {
-		panic(fmt.Sprintf("c13: cannot take a write lease on %s: %v", sc.Hold, err))
+	// EAGAIN: somebody else still has the file open - another worker's freshly forked child that
+	// has not reached its exec yet inherits, for a moment, a copy of every descriptor of this process
+	for try := 0; ; try++ {
+		_, err := fcntl(fd, fSetLease, fWrLck)
+		if err == nil {
+			break
+		}
+		if err != syscall.EAGAIN || try > 2000 {
+			panic(fmt.Sprintf("c13: cannot take a write lease on %s: %v", sc.Hold, err))
+		}
+		time.Sleep(time.Millisecond)
 	}
 	done := make(chan struct{})
 	go func() { store(); close(done) }()
@@ -534,7 +600,11 @@ func (w *worker) retrieve(sc *scenario, r retr, key, gz []byte) *retrObs {
 		c = cache.VerifNewCmdCache("", rt)
 	}
 	must(os.RemoveAll(w.outDir))
-	must(os.MkdirAll(w.outDir, 0o755)) // the output directory itself exists, and is empty
+	must(os.MkdirAll(w.outDir, 0o755)) // the output directory itself exists, and is empty ...
+	for _, p := range sc.Pre {         // ... or holds what is left from earlier
+		p.materialise(w.outDir)
+	}
+	ob.preCoq = w.snapshot()
 	done := make(chan bool, 1)
 	go func() { done <- c.Retrieve(w.target, key, nil) }()
 	select {
@@ -586,7 +656,266 @@ func (w *worker) retrieve(sc *scenario, r retr, key, gz []byte) *retrObs {
 	if ob.Incomplete != "" {
 		ob.Complete = false
 	}
+	for _, f := range sc.Pre {
+		f.each(func(t *tnode) {
+			if _, seen := ob.Disk[t.Name]; !seen {
+				got, coq := w.look(t.Name)
+				ob.Disk[t.Name] = got
+				ob.diskCoq = append(ob.diskCoq, lib.Pair(lib.Str(filepath.Join(w.outDir, t.Name)), coq))
+			}
+		})
+	}
 	return ob
+}
+
+// look describes what is at a path below the output directory
+func (w *worker) look(name string) (string, string) {
+	p := filepath.Join(w.outDir, name)
+	fi, err := os.Lstat(p)
+	switch {
+	case err != nil:
+		return "absent", "None"
+	case fi.Mode()&os.ModeSymlink != 0:
+		l, _ := os.Readlink(p)
+		return "link:" + l, lib.Some(lib.App("NLink", lib.Str(l)))
+	case fi.IsDir():
+		return "dir", lib.Some("NDir")
+	case fi.Mode().IsRegular():
+		b, err := os.ReadFile(p)
+		must(err)
+		return fmt.Sprintf("file:%d:%x", len(b), sum(b)), lib.Some(lib.App("NFile", coqContent(b)))
+	}
+	return "other", lib.Some("NDir")
+}
+
+// snapshot lists everything below the output directory as Coq pairs (path, node)
+func (w *worker) snapshot() []string {
+	out := []string{}
+	filepath.Walk(w.outDir, func(p string, fi os.FileInfo, err error) error {
+		if err != nil || p == w.outDir {
+			return nil
+		}
+		rel, _ := filepath.Rel(w.outDir, p)
+		_, coq := w.look(rel)
+		out = append(out, lib.Pair(lib.Str(p), strings.TrimSuffix(strings.TrimPrefix(coq, "(Some "), ")")))
+		return nil
+	})
+	return out
+}
+
+// cutInsideLast: an offset into the gzip body at which the decompressed prefix ends inside the
+// content of the last regular file (tar offsets lo <= n < hi); the largest such offset
+func cutInsideLast(gz []byte, lo, hi int) int {
+	for c := len(gz) - 1; c > 0; c-- {
+		if n := gunzipPrefix(gz[:c]); n >= lo && n < hi {
+			return c
+		}
+	}
+	return len(gz) / 2
+}
+
+func gunzipPrefix(gz []byte) int {
+	zr, err := gzip.NewReader(bytes.NewReader(gz))
+	if err != nil {
+		return 0
+	}
+	part, _ := io.ReadAll(zr)
+	return len(part)
+}
+
+func tarMembers(raw []byte) []string {
+	out := []string{}
+	tr := tar.NewReader(bytes.NewReader(raw))
+	for {
+		h, err := tr.Next()
+		if err != nil {
+			return out
+		}
+		out = append(out, h.Name)
+	}
+}
+
+// runMplex plays a history on the multiplexer over the worker's HTTP server and command store.
+func (w *worker) runMplex(idx int, sc *scenario) *observed {
+	key := []byte(fmt.Sprintf("key-%06d", idx))
+	hexKey := hex.EncodeToString(key)
+	ob := &observed{Members: []string{}}
+	entry, logf, refuse := filepath.Join(w.store, hexKey), filepath.Join(w.store, "log"), filepath.Join(w.store, "refuse")
+	for _, p := range []string{entry, entry + ".tmp", logf, refuse} {
+		os.Remove(p)
+	}
+	names := []string{}
+	for _, f := range sc.Files {
+		names = append(names, f.Name)
+	}
+	// where the content of the last regular file lies in the archive of the complete outputs
+	off, lo, hi := 0, 0, 0
+	for _, f := range sc.Files {
+		off += 512
+		if f.Kind == "file" {
+			n := len(f.content())
+			lo, hi = off, off+n
+			off += (n + 511) / 512 * 512
+		}
+	}
+	w.mu.Lock()
+	w.lastLo, w.lastHi = lo, hi
+	w.mu.Unlock()
+	logLines := func() int {
+		b, _ := os.ReadFile(logf)
+		return bytes.Count(b, []byte("\n"))
+	}
+	must(os.RemoveAll(w.outDir))
+	must(os.MkdirAll(w.outDir, 0o755))
+	for _, op := range sc.Ops {
+		so := &mstepObs{Op: op.Op, Disk: map[string]string{}}
+		plan := &scenario{PutFault: op.PutFault, StoreStyle: "mplex"}
+		w.mu.Lock()
+		w.plan, w.rplan = plan, op.R
+		puts0 := w.puts
+		gz := w.blobs["/"+hexKey]
+		w.mu.Unlock()
+		log0 := logLines()
+		if op.CmdRefuse {
+			must(os.WriteFile(refuse, nil, 0o644))
+		} else {
+			os.Remove(refuse)
+		}
+		st, rt := w.commands(plan, op.R)
+		hc, err := cache.VerifNewHTTPCache(w.srv.URL, true, 0, 10*time.Second)
+		must(err)
+		cc := cache.VerifNewCmdCache(st, rt)
+		cs := []core.Cache{}
+		for _, k := range sc.Order {
+			if k == "http" {
+				cs = append(cs, hc)
+			} else {
+				cs = append(cs, cc)
+			}
+		}
+		mp := cache.VerifNewMultiplexer(cs...)
+		switch op.Op {
+		case "build":
+			must(os.RemoveAll(w.outDir))
+			must(os.MkdirAll(w.outDir, 0o755))
+			for _, f := range sc.Files {
+				f.materialise(w.outDir)
+			}
+			mp.Store(w.target, key, names)
+		case "wipe":
+			must(os.RemoveAll(w.outDir))
+			must(os.MkdirAll(w.outDir, 0o755))
+		case "retrieve":
+			if gz != nil {
+				switch {
+				case op.R.GetFault == "cut-in-last":
+					so.tarCut = gunzipPrefix(gz[:cutInsideLast(gz, lo, hi)])
+				case strings.HasPrefix(op.R.GetFault, "cut"):
+					so.tarCut = gunzipPrefix(gz[:min(op.R.GetCut, len(gz))])
+				}
+			}
+			done := make(chan bool, 1)
+			go func() { done <- mp.Retrieve(w.target, key, names) }()
+			select {
+			case h := <-done:
+				so.Result = map[bool]string{true: "hit", false: "miss"}[h]
+			case <-time.After(45 * time.Second):
+				so.Result = "hung"
+			}
+		default:
+			panic("mplex op " + op.Op)
+		}
+		// what each cache holds now
+		w.mu.Lock()
+		gz2, okHTTP := w.blobs["/"+hexKey]
+		wroteHTTP := w.puts > puts0
+		w.mu.Unlock()
+		for _, k := range sc.Order {
+			e := &entryObs{Members: []string{}}
+			var raw []byte
+			if k == "http" {
+				e.Stored, e.Wrote = okHTTP, wroteHTTP
+				if okHTTP {
+					zr, err := gzip.NewReader(bytes.NewReader(gz2))
+					must(err)
+					raw, err = io.ReadAll(zr)
+					must(err)
+				}
+			} else {
+				b, err := os.ReadFile(entry)
+				e.Stored, e.Wrote = err == nil, logLines() > log0
+				raw = b
+			}
+			e.Len, e.Members = len(raw), tarMembers(raw)
+			so.Entries = append(so.Entries, e)
+		}
+		for _, f := range sc.Files {
+			got, coq := w.look(f.Name)
+			want := "link:" + f.Target
+			if f.Kind == "file" {
+				b := f.content()
+				want = fmt.Sprintf("file:%d:%x", len(b), sum(b))
+			}
+			if got != want && so.Incomplete == "" {
+				so.Incomplete = fmt.Sprintf("%s: want %s, have %s", f.Name, want, got)
+			}
+			so.Disk[f.Name] = got
+			so.diskCoq = append(so.diskCoq, lib.Pair(lib.Str(filepath.Join(w.outDir, f.Name)), coq))
+		}
+		ob.Steps = append(ob.Steps, so)
+	}
+	must(os.RemoveAll(w.outDir))
+	for _, p := range []string{entry, entry + ".tmp", logf, refuse} {
+		os.Remove(p)
+	}
+	w.mu.Lock()
+	delete(w.blobs, "/"+hexKey)
+	w.mu.Unlock()
+	return ob
+}
+
+func (sc *scenario) coqMplex(w *worker, ob *observed) string {
+	files := []string{}
+	for _, f := range sc.Files {
+		files = append(files, f.coq(w.outDir))
+	}
+	kinds := []string{}
+	for _, k := range sc.Order {
+		kinds = append(kinds, map[bool]string{true: "KHttp", false: "KCmd"}[k == "http"])
+	}
+	steps := []string{}
+	for i, op := range sc.Ops {
+		so := ob.Steps[i]
+		sfs, rfs, ents := []string{}, []string{}, []string{}
+		for ci, k := range sc.Order {
+			e := so.Entries[ci]
+			sfs = append(sfs, lib.Opt(e.Wrote, lib.N(uint64(map[bool]int{true: 0, false: e.Len}[k == "http"]))))
+			if k == "http" {
+				g := "GetOk"
+				switch {
+				case op.R.GetFault == "status":
+					g = "GetStatus"
+				case strings.HasPrefix(op.R.GetFault, "cut"):
+					g = lib.App("GetCut", lib.N(uint64(so.tarCut)))
+				}
+				rfs = append(rfs, lib.App("RF", g, "None", "true"))
+			} else {
+				rfs = append(rfs, lib.App("RF", "GetOk", lib.Opt(op.R.RetrCut >= 0, lib.N(uint64(max(op.R.RetrCut, 0)))), lib.Bool(op.R.RetrExit == 0)))
+			}
+			ents = append(ents, "("+lib.Bool(e.Stored)+", "+lib.N(uint64(e.Len))+", "+lib.StrList(e.Members)+")")
+		}
+		var o, res string
+		switch op.Op {
+		case "build":
+			o, res = lib.App("OBuild", lib.List(sfs)), "None"
+		case "wipe":
+			o, res = "OWipe", "None"
+		default:
+			o, res = lib.App("ORetrieve", lib.List(rfs), lib.List(sfs)), lib.Some(lib.Bool(so.Result == "hit"))
+		}
+		steps = append(steps, lib.Pair(o, "("+res+", "+lib.List(ents)+", "+lib.List(so.diskCoq)+")"))
+	}
+	return lib.App("CMplex", lib.Str(w.outDir), lib.List(files), lib.List(kinds), lib.List(steps))
 }
 
 func sum(b []byte) uint32 { // adler-like, only for the report
@@ -773,7 +1102,7 @@ func setSize(s []*tnode) int {
 // ---------------------------------------------------------------------------------------------
 
 func (sc *scenario) storeFaulty() bool {
-	return !allHealthy(sc.Files) || sc.PutFault != "" || sc.StoreStyle == "head-fail" || sc.StoreStyle == "atomic-head-fail"
+	return !allHealthy(sc.Files) || sc.PutFault != "" || sc.StoreStyle == "head-fail" || sc.StoreStyle == "atomic-head-fail" || len(sc.Pre) > 0
 }
 func (r retr) faulty() bool { return r.GetFault != "" || r.RetrCut >= 0 || r.RetrExit != 0 }
 
@@ -783,6 +1112,24 @@ func (sc *scenario) coq(w *worker, ob *observed, i int) string {
 		files = append(files, f.coq(w.outDir))
 	}
 	r, ro := sc.Retrs[i], ob.R[i]
+	switch sc.Kind {
+	case "atomic":
+		return lib.App("CCmdAtomic", lib.Str(w.outDir), lib.List(files),
+			lib.Bool(ob.Stored), lib.N(uint64(ob.StoredLen)), lib.StrList(ob.Members), lib.Bool(ro.Hit), lib.List(ro.diskCoq))
+	case "into":
+		if sc.Cache == "http" {
+			g := "GetOk"
+			switch {
+			case r.GetFault == "status":
+				g = "GetStatus"
+			case strings.HasPrefix(r.GetFault, "cut"):
+				g = lib.App("GetCut", lib.N(uint64(ro.tarCut)))
+			}
+			return lib.App("CHttpInto", lib.Str(w.outDir), lib.List(files), lib.List(ro.preCoq), g, lib.Bool(ro.Hit), lib.List(ro.diskCoq))
+		}
+		return lib.App("CCmdInto", lib.Str(w.outDir), lib.List(files), lib.List(ro.preCoq),
+			lib.Opt(r.RetrCut >= 0, lib.N(uint64(max(r.RetrCut, 0)))), lib.Bool(r.RetrExit == 0), lib.Bool(ro.Hit), lib.List(ro.diskCoq))
+	}
 	if sc.Cache == "http" {
 		g := "GetOk"
 		switch {
@@ -821,7 +1168,15 @@ func main() {
 			"x cache (httpCache against an in-process server; cmdCache with plain, tmp+mv, pipeline, pipeline+tmp+mv, exec'd and failing store commands) " +
 			"x transport faults (PUT aborted mid-body / refused; GET body cut at sampled offsets with Content-Length, chunked and close-delimited framing; non-200 status; " +
 			"retrieve command output cut at sampled offsets, non-zero exit). One evaluation = one store followed by one retrieve into an empty output directory; " +
-			"distinct = distinct (tree, cache, store fault, retrieve fault); non-trivial = at least one fault injected and at least one readable output")
+			"distinct = distinct (tree, cache, store fault, retrieve fault); non-trivial = at least one fault injected and at least one readable output. " +
+			"Follow-up 2: (a) command-cache stores through a command that publishes only if it ran to its end (cat > tmp && sleep && mv by sh itself) with a read fault " +
+			"BEFORE ANYTHING was written (first declared output missing / replaced by a missing one / an unarchivable socket), after the last output, and none; " +
+			"(b) fault-free stores followed by retrieves INTO an output directory where the path of an output is occupied (each symlink: a stale link, the same link, an empty file, " +
+			"a short file; each regular file: an empty or stale file), through both caches, whole and cut; " +
+			"(c) histories on the real cacheMultiplexer over the real httpCache and cmdCache (both orders): build+Store / empty the output directory / Retrieve with per-cache faults " +
+			"(GET cut INSIDE the content of the last file so that every output exists and the last is short, command output cut there, status, exit 1; PUT refused/aborted, store command refusing) - " +
+			"fixed histories (total miss over half-restored outputs then fault-free retrieves, back-fill after a hit behind a failed cache, ...) and random ones of 5-10 operations; " +
+			"one evaluation = one history, observed after every operation (result, what each cache holds, the output directory)")
 
 		var scs []*scenario
 		var one struct {
@@ -854,7 +1209,7 @@ func main() {
 					t0 := time.Now()
 					obs[i] = workers[wi].run(i, scs[i])
 					if os.Getenv("C13_TIMING") != "" {
-						fmt.Fprintf(os.Stderr, "T %s %s %d %d\n", scs[i].Cache, storeFaultName(scs[i]), len(scs[i].Retrs), time.Since(t0).Milliseconds())
+						fmt.Fprintf(os.Stderr, "T %s%s %s %d %d\n", scs[i].Cache, scs[i].Kind, storeFaultName(scs[i]), len(scs[i].Retrs), time.Since(t0).Milliseconds())
 					}
 				}
 			}(wi)
@@ -863,6 +1218,34 @@ func main() {
 
 		for i, sc := range scs {
 			w := workers[i%nw]
+			if sc.Kind == "mplex" {
+				ob := obs[i]
+				js := map[string]any{"scenario": sc, "observed": ob}
+				faulty := false
+				for _, op := range sc.Ops {
+					faulty = faulty || op.R.faulty() || op.PutFault != "" || op.CmdRefuse
+				}
+				c.Case(sc.coqMplex(w, ob), js, keyOf(sc), faulty && len(sc.Files) > 0)
+				c.Hist("cache", "mplex:"+strings.Join(sc.Order, "+"))
+				c.HistN("mplex_ops", len(sc.Ops))
+				for k, so := range ob.Steps {
+					if so.Op != "retrieve" {
+						continue
+					}
+					c.Hist("outcome", "mplex-"+so.Result+map[bool]string{true: "", false: "-INCOMPLETE"}[so.Result != "hit" || so.Incomplete == ""])
+					// ---- the property, directly: a hit restored every output exactly ----
+					c.Oracle()
+					if so.Result == "hit" && so.Incomplete != "" {
+						c.Fail("mplex-hit-with-incomplete-outputs", fmt.Sprintf("multiplexer over %v: operation %d (retrieve) reports a hit but %s; history: %s",
+							sc.Order, k, so.Incomplete, historyOf(sc, ob, k)), js)
+					}
+					c.Oracle()
+					if so.Result == "hung" {
+						c.Fail("retrieve-does-not-return", "the multiplexer's Retrieve neither reports a hit nor a miss within 45 s", js)
+					}
+				}
+				continue
+			}
 			readable := false
 			for _, f := range sc.Files {
 				f.each(func(t *tnode) { readable = readable || t.Kind == "file" || t.Kind == "link" })
@@ -884,6 +1267,12 @@ func main() {
 					c.Fail("store-went-on-after-read-fault", fmt.Sprintf("%s cache: the stored entry holds %v, the members in front of the unreadable output are %v",
 						sc.Cache, obs[i].Members, front), map[string]any{"scenario": sc, "observed": obs[i]})
 				}
+			}
+			c.Oracle()
+			if sc.Kind == "atomic" && !allHealthy(sc.Files) && obs[i].Stored {
+				c.Fail("cmd-atomic-store-published-after-read-fault", fmt.Sprintf("command cache: an output could not be read (%s), yet a store command that publishes "+
+					"only when it ran to its end (cat > tmp && sleep && mv, all by sh itself) published an entry holding %v: the cancel did not stop it",
+					firstFault(sc.Files), obs[i].Members), map[string]any{"scenario": sc, "observed": obs[i]})
 			}
 			c.Oracle()
 			if obs[i].Stored && sc.Cache == "http" && (sc.PutFault != "" || !allHealthy(sc.Files)) {
@@ -912,6 +1301,13 @@ func main() {
 					// defect finishes THAT archive; an archive that goes on behind the fault is another matter)
 					stopsAtFault := sameStrings(ob.Members, membersBeforeFault(sc.Files, w.outDir))
 					switch {
+					case len(sc.Pre) > 0:
+						// the path of an output was occupied when the retrieve ran: that retrieve cannot have
+						// restored it and must be a miss
+						class = "hit-over-occupied-output-path"
+					case sc.Kind == "atomic" && !allHealthy(sc.Files):
+						// sh itself publishes, after a pause: killed or never started, it cannot have
+						class = "cmd-atomic-store-published-after-read-fault"
 					case sc.Cache == "http" && sc.vanishNode() != nil:
 						class = "http-hit-after-entry-vanished-during-store"
 					case sc.Cache == "cmd" && sc.vanishNode() != nil && !(ob.Footer && stopsAtFault && !r.faulty()):
@@ -952,6 +1348,37 @@ func main() {
 	})
 }
 
+func firstFault(files []*tnode) string {
+	pos, out := 0, ""
+	for _, f := range files {
+		f.each(func(t *tnode) {
+			if out == "" && (t.Kind == "sock" || t.Kind == "missing" || t.Vanish) {
+				out = fmt.Sprintf("%s %s at walk position %d", t.Kind, t.Name, pos)
+			}
+			pos++
+		})
+	}
+	return out
+}
+
+func historyOf(sc *scenario, ob *observed, upto int) string {
+	var b strings.Builder
+	for k := 0; k <= upto && k < len(sc.Ops); k++ {
+		op, so := sc.Ops[k], ob.Steps[k]
+		fmt.Fprintf(&b, "[%d %s", k, op.Op)
+		if op.Op == "retrieve" {
+			fmt.Fprintf(&b, " (%s) -> %s", retrFaultName(op.R), so.Result)
+		}
+		for ci, e := range so.Entries {
+			if e.Wrote {
+				fmt.Fprintf(&b, "; stored into %s: %d bytes", sc.Order[ci], e.Len)
+			}
+		}
+		b.WriteString("] ")
+	}
+	return b.String()
+}
+
 func sameStrings(a, b []string) bool {
 	if len(a) != len(b) {
 		return false
@@ -979,6 +1406,8 @@ func membersBeforeFault(files []*tnode, outDir string) []string {
 	return out
 }
 
+func membersBeforeFaultCount(files []*tnode) int { return len(membersBeforeFault(files, "")) }
+
 func unreadableNote(sc *scenario) string {
 	if allHealthy(sc.Files) {
 		return ""
@@ -991,7 +1420,10 @@ func unreadableNote(sc *scenario) string {
 
 func keyOf(sc *scenario) string {
 	var b strings.Builder
-	fmt.Fprintf(&b, "%s|%s|%s|%d|%+v|%s|%v", sc.Cache, sc.PutFault, sc.StoreStyle, sc.StoreHead, sc.Retrs, sc.Hold, sc.HoldByCmd)
+	fmt.Fprintf(&b, "%s|%s|%s|%d|%+v|%s|%v|%s|%v|%+v", sc.Cache, sc.PutFault, sc.StoreStyle, sc.StoreHead, sc.Retrs, sc.Hold, sc.HoldByCmd, sc.Kind, sc.Order, sc.Ops)
+	for _, f := range sc.Pre {
+		f.each(func(t *tnode) { fmt.Fprintf(&b, "|pre:%s:%s:%d:%s:%s", t.Kind, t.Name, t.Size, t.Text, t.Target) })
+	}
 	for _, f := range sc.Files {
 		f.each(func(t *tnode) {
 			fmt.Fprintf(&b, "|%s:%s:%d:%d:%s:%s:%v", t.Kind, t.Name, t.Size, t.Byte, t.Text, t.Target, t.Vanish)
@@ -1014,6 +1446,9 @@ func storeFaultName(sc *scenario) string {
 				}
 			})
 		}
+		if sc.Kind == "atomic" && membersBeforeFaultCount(sc.Files) == 0 {
+			k += "-before-anything-was-written"
+		}
 		if sc.Cache == "cmd" {
 			return k + "/" + sc.StoreStyle
 		}
@@ -1022,6 +1457,8 @@ func storeFaultName(sc *scenario) string {
 		return "put-" + sc.PutFault
 	case sc.StoreStyle == "head-fail" || sc.StoreStyle == "atomic-head-fail":
 		return "command-" + sc.StoreStyle
+	case len(sc.Pre) > 0:
+		return "none/retrieve-over-occupied-path"
 	}
 	return "none"
 }
@@ -1125,7 +1562,7 @@ func generate(c *lib.Ctx) []*scenario {
 	r := c.Rng.Fork()
 	var scs []*scenario
 	add := func(sc *scenario) {
-		if sc.Retrs == nil {
+		if sc.Retrs == nil && sc.Kind != "mplex" {
 			sc.Retrs = []retr{whole}
 		}
 		scs = append(scs, sc)
@@ -1228,6 +1665,161 @@ func generate(c *lib.Ctx) []*scenario {
 			StoreStyle: "atomic-rm-midway", StoreHead: 65536, HoldByCmd: true, Why: "the store command removes an entry midway"})
 		nv++
 	}
-	c.Note("%d output sets (%d fixed), %d stores, %d of them with an entry vanishing during the store", len(sets), nfixed, len(scs), nv)
+	n5 := len(scs)
+	// 6. (follow-up 2) a read fault BEFORE ANYTHING was written - the first declared output is missing or
+	// cannot be archived - through a store command that publishes only if it ran to its end: the
+	// archive writer is started before the store process exists, so the cancel can come first.
+	// With later positions and no fault for contrast.
+	for si, s := range sets {
+		if len(s) == 0 || (!c.Thor && si >= 5 && si != nfixed) {
+			continue
+		}
+		first := [][]*tnode{
+			append([]*tnode{missing("gone.txt")}, cloneSet(s)...),
+			append([]*tnode{missing(s[0].Name)}, cloneSet(s[1:])...),
+			append([]*tnode{sock("first.sock")}, cloneSet(s)...),
+		}
+		for vi, f := range first {
+			for k := 0; k < c.Scale(1, 3); k++ {
+				if c.Thor || si < 2 || vi == si%3 {
+					add(&scenario{Kind: "atomic", Cache: "cmd", Files: cloneSet(f), StoreStyle: "atomic-slow", Why: "read fault before anything was written"})
+				}
+			}
+		}
+		if c.Thor || si < 3 {
+			add(&scenario{Kind: "atomic", Cache: "cmd", Files: append(cloneSet(s), missing("gone.txt")), StoreStyle: "atomic-slow", Why: "read fault after the last output"})
+			add(&scenario{Kind: "atomic", Cache: "cmd", Files: cloneSet(s), StoreStyle: "atomic-slow", Why: "no fault"})
+		}
+	}
+	for k := 0; k < c.Scale(3, 8); k++ { // the shape of the seeded demonstration: three files, the first one missing
+		add(&scenario{Kind: "atomic", Cache: "cmd", Files: []*tnode{missing("a.txt"), file("b.txt", 2000, 'b'), file("c.txt", 1000, 'c')},
+			StoreStyle: "atomic-slow", Why: "the first of three outputs is missing"})
+	}
+	n6 := len(scs)
+
+	// 7. (follow-up 2) retrieve into an output directory in which the path of an output is already
+	// occupied: a stale link, the same link, an empty or short regular file (what openFile leaves when
+	// a retrieve fails right after creating it), at every symlink and every regular file of the set
+	intoSets := [][]*tnode{
+		{file("lib.so.2", 5000, 'L'), link("lib.so", "lib.so.2")},
+		{link("first", "second"), text("second", "2")},
+	}
+	for si, s := range append(intoSets, sets...) {
+		nlinks := 0
+		for _, f := range s {
+			f.each(func(t *tnode) {
+				if t.Kind == "link" {
+					nlinks++
+				}
+			})
+		}
+		if nlinks == 0 && !(c.Thor || si%4 == 0) {
+			continue
+		}
+		k := 0
+		for _, f := range s {
+			f.each(func(t *tnode) {
+				var pres [][]*tnode
+				switch t.Kind {
+				case "link":
+					pres = [][]*tnode{{link(t.Name, t.Target+".old")}, {link(t.Name, t.Target)}, {file(t.Name, 0, 0)}, {text(t.Name, "x")}}
+				case "file":
+					pres = [][]*tnode{{file(t.Name, 0, 0)}, {text(t.Name, "stale")}}
+					if !c.Thor && si >= 2 {
+						pres = pres[(si+k)%2:][:1]
+						if k > 2 {
+							pres = nil
+						}
+					}
+				}
+				for pi, pre := range pres {
+					k++
+					rs := []retr{whole}
+					if pi == 0 {
+						rs = append(rs, retr{GetFault: "cut-length", GetCut: 30 + r.Intn(40), RetrCut: -1})
+					}
+					add(&scenario{Kind: "into", Cache: "http", Files: cloneSet(s), Pre: pre, Retrs: rs, Why: "retrieve over an occupied path"})
+					if c.Thor || (si < 2 && t.Kind == "link") || (t.Kind == "link" && k%7 == 0) {
+						add(&scenario{Kind: "into", Cache: "cmd", Files: cloneSet(s), Pre: pre, StoreStyle: "atomic", Why: "retrieve over an occupied path"})
+					}
+				}
+			})
+		}
+	}
+	n7 := len(scs)
+
+	// 8. (follow-up 2) histories on the multiplexer (HTTP + command cache, as newSyncCache orders
+	// them, and the other way round): build+store / wipe / retrieve, with a retrieve that fails
+	// partway INSIDE the content of the last file (every output then exists, the last one short)
+	// followed by fault-free retrieves; fixed histories and random ones
+	mplexSets := [][]*tnode{
+		{file("a.txt", 1000, 'a'), file("b.txt", 6000, 'b')},
+		{text("x", "xx"), link("l", "x"), file("big", 3000, 'B')},
+		{file("only", 2500, 'o')},
+	}
+	inLast := func(s []*tnode) int { // a tar offset inside the content of the last regular file
+		off, at := 0, 0
+		for _, f := range s {
+			off += 512
+			if f.Kind == "file" {
+				n := len(f.content())
+				at = off + n/2
+				off += (n + 511) / 512 * 512
+			}
+		}
+		return at
+	}
+	cutHTTP := retr{GetFault: "cut-in-last", RetrCut: -1}
+	hists := func(s []*tnode) [][]mop {
+		cutCmd := retr{RetrCut: inLast(s)}
+		cutBoth := retr{GetFault: "cut-in-last", RetrCut: inLast(s)}
+		return [][]mop{
+			// the first cache fails partway, the second has nothing: a total miss over half-restored outputs
+			{{Op: "build", CmdRefuse: true}, {Op: "wipe"}, {Op: "retrieve", R: cutHTTP}, {Op: "wipe"}, {Op: "retrieve", R: whole}},
+			{{Op: "build", CmdRefuse: true}, {Op: "wipe"}, {Op: "retrieve", R: cutHTTP}, {Op: "retrieve", R: whole}},
+			{{Op: "build", PutFault: "status"}, {Op: "wipe"}, {Op: "retrieve", R: cutCmd}, {Op: "wipe"}, {Op: "retrieve", R: whole}},
+			// both have it, both fail partway
+			{{Op: "build"}, {Op: "wipe"}, {Op: "retrieve", R: cutBoth}, {Op: "wipe"}, {Op: "retrieve", R: whole}},
+			// the first fails partway, the second hits: the first is back-filled from restored outputs
+			{{Op: "build"}, {Op: "wipe"}, {Op: "retrieve", R: cutHTTP}, {Op: "wipe"}, {Op: "retrieve", R: whole}},
+			{{Op: "build", PutFault: "abort"}, {Op: "wipe"}, {Op: "retrieve", R: whole}, {Op: "wipe"}, {Op: "retrieve", R: cutCmd}},
+			// nothing anywhere, empty output directory
+			{{Op: "retrieve", R: whole}, {Op: "build"}, {Op: "wipe"}, {Op: "retrieve", R: retr{GetFault: "status", RetrCut: -1, RetrExit: 1}}, {Op: "retrieve", R: whole}},
+		}
+	}
+	orders := [][]string{{"http", "cmd"}, {"cmd", "http"}}
+	for si, s := range mplexSets {
+		for hi, h := range hists(s) {
+			for oi, o := range orders {
+				if c.Thor || (si == 0 && (hi < 2 || hi%2 == oi)) || (si > 0 && (hi+si)%4 == oi) {
+					add(&scenario{Kind: "mplex", Files: cloneSet(s), Order: o, Ops: h, Why: "multiplexer history"})
+				}
+			}
+		}
+	}
+	for k, n := 0, c.Scale(8, 80); k < n; k++ {
+		s := cloneSet(mplexSets[r.Intn(len(mplexSets))])
+		rfaults := []retr{whole, whole, cutHTTP, {RetrCut: inLast(s)}, {GetFault: "cut-in-last", RetrCut: inLast(s)}, {GetFault: "status", RetrCut: -1},
+			{RetrCut: -1, RetrExit: 1}, {GetFault: "cut-length", GetCut: 20 + r.Intn(60), RetrCut: 512 * r.Intn(6)}}
+		ops := []mop{{Op: "build", CmdRefuse: r.Intn(3) == 0, PutFault: lib.Pick(r, []string{"", "", "status", "abort"})}}
+		for j, m := 0, r.Range(2, 5); j < m; j++ {
+			switch r.Intn(5) {
+			case 0:
+				ops = append(ops, mop{Op: "build", CmdRefuse: r.Intn(4) == 0, PutFault: lib.Pick(r, []string{"", "", "", "status"})})
+			case 1:
+				ops = append(ops, mop{Op: "wipe"})
+			default:
+				if r.Intn(2) == 0 {
+					ops = append(ops, mop{Op: "wipe"})
+				}
+				ops = append(ops, mop{Op: "retrieve", R: lib.Pick(r, rfaults), CmdRefuse: r.Intn(5) == 0, PutFault: lib.Pick(r, []string{"", "", "", "status"})})
+			}
+		}
+		ops = append(ops, mop{Op: "wipe"}, mop{Op: "retrieve", R: whole})
+		add(&scenario{Kind: "mplex", Files: s, Order: orders[r.Intn(2)], Ops: ops, Why: "random multiplexer history"})
+	}
+	c.Note("%d output sets (%d fixed), %d stores, %d of them with an entry vanishing during the store; follow-up 2: %d stores through a publish-on-success command "+
+		"(read fault before anything was written, later, none), %d retrieves into an output directory with an occupied path, %d multiplexer histories",
+		len(sets), nfixed, n5, nv, n6-n5, n7-n6, len(scs)-n7)
 	return scs
 }
